@@ -255,6 +255,10 @@ def gen_specs(tier, seed):
         ["assign", "arr", V("i"), C(0), [["i", C(0), ["sub", V("m"), V("p"), V("q")]]], True],
         ["call", ["a"], "<func>f", [["sub", V("m"), V("i"), V("j")]], {"k": ["sub", V("m"), V("p"), C(0)]}, True],
         ["yield", ["sub", V("m"), V("i"), V("j")], "y", V("<t>"), "final", True],
+        # several subscripts on the LEFT-hand side: every index expression is read
+        ["assign", "arr", ["tuple", V("row"), V("col")], V("b"), [], True],
+        ["assign", "arr", ["tuple", ["+", V("row"), C(1)], V("col"), V("lay")], ["sub", V("v"), V("k")], [], V("<cond>c")],
+        ["assign", "arr", ["tuple", V("i"), V("col")], V("i"), [["i", C(0), V("n")]], True],
     ]
     ncur = len(specs)
     nrand = 600 if tier == "quick" else 60000
